@@ -392,7 +392,14 @@ func (x *Exec) candidates(st *State, apps []appRec, t types.Type) []Value {
 	s, ok := t.Underlying().(*types.Struct)
 	if ok {
 		for _, a := range apps {
-			if !(strings.HasPrefix(a.fn, "Ev_") || a.fn == "evalpt" || strings.HasPrefix(a.fn, "maphas_")) || len(a.args) != s.NumFields() {
+			if !(strings.HasPrefix(a.fn, "Ev_") || a.fn == "evalpt" || strings.HasPrefix(a.fn, "maphas_")) {
+				continue
+			}
+			if strings.HasPrefix(a.fn, "Ev_arr_") && len(a.args) > s.NumFields() {
+				// a member of a family of shapes: the point is what follows the member's index
+				a = appRec{fn: a.fn, args: a.args[len(a.args)-s.NumFields():], res: a.res}
+			}
+			if len(a.args) != s.NumFields() {
 				continue
 			}
 			sortsOK := true
@@ -434,6 +441,23 @@ func (x *Exec) candidates(st *State, apps []appRec, t types.Type) []Value {
 		return out
 	}
 	if vs, ok := sortOf(t); ok {
+		// arguments of applications of abstract function values (a blend function held in a field):
+		// facts quantified over their arguments are instantiated where they are applied
+		for _, a := range apps {
+			if !strings.Contains(a.fn, "#") || strings.HasPrefix(a.fn, "ret_") {
+				continue
+			}
+			for _, arg := range a.args {
+				if arg.sort != vs {
+					continue
+				}
+				k := fmt.Sprintf("%d", arg.id)
+				if !seen[k] {
+					seen[k] = true
+					out = append(out, arg)
+				}
+			}
+		}
 		for _, a := range apps {
 			if strings.HasPrefix(a.fn, "Ev_") || a.fn == "evalpt" || strings.HasPrefix(a.fn, "sqrt") || len(a.args) != 1 {
 				continue
